@@ -118,6 +118,17 @@ class Checker:
                 line=0,
             )
 
+    def require_count_in(self, rule: str, function: str, minimum: int, what: str = ""):
+        """instances of a rule inside one named function: when the function is still there
+        but the construct the rule pairs is not, the function was rewritten into a shape the
+        rule does not read - unknown, not a silent pass"""
+        exists = any(q.split(":", 1)[-1] == function for q in self.repo.all_functions)
+        if not exists:
+            return
+        n = sum(1 for o in self.obs if o.rule == rule and o.function == function)
+        if n < minimum:
+            self.ob(rule, None, f"{function}: instance count {n} < {minimum}", UNKNOWN, f"rule {rule} matched {n} instance(s) in {function}; {minimum} were confirmed by hand ({what}): the function no longer has the shape this rule reads, so the clause is not decided for it", file="-", function=function, line=0)
+
     # ------------------------------------------------------------ finishing
     def _decorator_guard(self):
         """a wrapped function does not mean what its body says: every analysed function
